@@ -294,7 +294,7 @@ class C03(Prop):
         return None
 
     def sweeps(self, tier):
-        return [["v1tokens", 5 if tier == "quick" else 6], ["v1lines", 1 if tier == "quick" else 2]]
+        return [["v1tokens", 5 if tier == "quick" else 6], ["v1lines", 1 if tier == "quick" else 2], ["bytes3", 3]]
 
 
 class C04(Prop):
@@ -397,6 +397,10 @@ class C04(Prop):
         return hash(x) if len(x) > 0 and x[-1:] in (b"0", b"5", b"\n", b"\r", b" ") else None
 
 
+    def sweeps(self, tier):
+        # the relation evaluated in-process on all token strings and near-valid full lines
+        return [["v1tokens", 5 if tier == "quick" else 6], ["v1lines", 1 if tier == "quick" else 2]]
+
 class C05(Prop):
     id = "C05"
     required = ["C05.v2_prefix_incomplete", "C05.v1_bytes_prefix_incomplete", "C05.v1_str_prefix_incomplete", "C05.auto_prefix_incomplete", "C05.flags", "C05.streaming_v2", "C05.streaming_v1", "C05.v1_str_prefix_incomplete'", "C05.v1_bytes_prefix_incomplete_iff", "C05.streaming_v1_str"]
@@ -486,6 +490,10 @@ class C05(Prop):
         x = op_bytes(op)
         return (op.split(" ")[0], x[:12], x.count(b" "), x[-1:] if x else b"")
 
+
+    def sweeps(self, tier):
+        # the relation evaluated in-process on all token strings and near-valid full lines
+        return [["v1tokens", 5 if tier == "quick" else 6], ["v1lines", 1 if tier == "quick" else 2]]
 
 class C06(Prop):
     id = "C06"
@@ -586,6 +594,11 @@ class C06(Prop):
 
     def nontrivial(self, op, line):
         return None
+
+    def sweeps(self, tier):
+        # the relation evaluated in-process on every byte string of at most 3 bytes (16 843 009
+        # inputs) and on all token strings
+        return [["bytes3", 3], ["v1tokens", 4 if tier == "quick" else 5]]
 
     def nontrivial_all(self, ops, impl):
         out = []
@@ -977,6 +990,10 @@ class C16(Prop):
         return None
 
 
+    def sweeps(self, tier):
+        # the relation evaluated in-process on all token strings and near-valid full lines
+        return [["v1tokens", 5 if tier == "quick" else 6], ["v1lines", 1 if tier == "quick" else 2]]
+
 class C18(Prop):
     id = "C18"
     required = ["C18.frozen_complete_bytes", "C18.frozen_complete_str", "C18.frozen_stable_bytes", "C18.complete_at_108", "C18.complete_at_108_str", "C18.sharp_107_bytes", "C18.incomplete_ge_107_bytes", "C18.frozen_stable_str"]
@@ -1044,7 +1061,7 @@ class C18(Prop):
         return op_bytes(op)[:50] if r["k"] == "err" else None
 
     def sweeps(self, tier):
-        return [["v1tokens", 5 if tier == "quick" else 6], ["v1lines", 1 if tier == "quick" else 2]]
+        return [["v1tokens", 5 if tier == "quick" else 6], ["v1lines", 1 if tier == "quick" else 2], ["bytes3", 3]]
 
 
 class C19(Prop):
